@@ -32,3 +32,20 @@ def regenerate(which):
         changed = write_if_changed(os.path.join(LEAN, "HierArc", "Gen", "Effects.lean"), txt)
         info["Effects.lean"] = {"sha256": hashlib.sha256(txt.encode()).hexdigest()[:16], "changed": changed, "info": inf}
     return info
+
+
+GEN_FILES = {"ladders": "Ladders.lean", "tables": "Tables.lean", "effects": "Effects.lean"}
+LAST_GOOD = os.path.join(os.path.dirname(os.path.abspath(__file__)), "last_good")
+
+
+def restore_last_good(which):
+    """the translator could not follow the source: put the last generated model (committed copy made by
+    tools/update_last_good.py on a tree where the translation succeeded) back in place, so that the tie can still be
+    checked the second way — by running that model against the current implementation (correspondence)"""
+    out = {}
+    for w in which:
+        src = os.path.join(LAST_GOOD, GEN_FILES[w])
+        txt = open(src).read()
+        changed = write_if_changed(os.path.join(LEAN, "HierArc", "Gen", GEN_FILES[w]), txt)
+        out[GEN_FILES[w]] = {"sha256": hashlib.sha256(txt.encode()).hexdigest()[:16], "restored_from": "translator/last_good", "changed": changed}
+    return out
